@@ -2,6 +2,7 @@
    Only statements, each closed by `exact` of a lemma of SchedPipe.v / SchedProofs.v, and Print Assumptions. *)
 From Coq Require Import ZArith List.
 From SLU Require Import Consts SchedModel SchedInv SchedProofs SchedPipe.
+From SLU Require ColRelease.
 Local Open Scope Z_scope.
 
 (* Whenever the scheduler hands panel j to a thread with farthest-busy column b (any forest accepted by check_init,
@@ -96,3 +97,20 @@ Example c03_source_mark_busy_example :
   gen_pxgstrf_mark_busy_descends 3 (etree s) (ptype s) (psize s) nil nil 0 (repeat (-1) 8) 9 =
   Some (3 :: 3 :: 3 :: -1 :: -1 :: -1 :: -1 :: -1 :: nil, 0).
 Proof. vm_compute. reflexivity. Qed.
+
+(* Column level: the release protocol of the thread loop (ColRelease.v).  Operations: the scheduler hands out the columns of a
+   panel (flag set), pivotL / factor_snode makes a column final, the owner clears the flag -- guarded by finality, the order of
+   the statements in p?gstrf_thread that the hook audit of checks/c03.py re-reads from the current source on every run --,
+   and a panel update consumes a handed-out column whose flag it saw clear.  For every sequence of these operations, of any
+   length, by any number of owners and readers: every column consumed was final when it was consumed. *)
+Theorem c03_consumed_columns_are_final : forall os s',
+  ColRelease.crun true ColRelease.cinit os = Some s' -> List.Forall (fun p => snd p = true) (ColRelease.rd s').
+Proof. exact ColRelease.reads_are_final. Qed.
+Print Assumptions c03_consumed_columns_are_final.
+
+(* the guard is needed: with the flag cleared before the column is final (the order seeded change C03h introduced) a
+   three-operation execution consumes a column that is not final *)
+Theorem c03_release_before_final_refuted :
+  exists os s', ColRelease.crun false ColRelease.cinit os = Some s' /\ ~ List.Forall (fun p => snd p = true) (ColRelease.rd s').
+Proof. exact ColRelease.unguarded_release_refuted. Qed.
+Print Assumptions c03_release_before_final_refuted.
